@@ -3,8 +3,10 @@
 # Confirms: patch applies to /repo HEAD, mutated tree builds and passes the repository tests (hooks off),
 # demonstration passes on the clean tree and fails on the mutated one.
 P=$1; M=$2
-SRC=/tmp/mut/$P/_mutants/$M
-DST=/verif/seeded/$P-$M
+BASE=${MUTBASE:-/tmp/mut}
+TAG=${MUTTAG:-}
+SRC=$BASE/$P/_mutants/$M
+DST=/verif/seeded/$P-$TAG$M
 [ -f $SRC/patch.diff ] || { echo "no patch $SRC"; exit 2; }
 D=$(mktemp -d /tmp/cm.XXXXXX)
 trap 'rm -rf "$D"' EXIT
@@ -23,14 +25,14 @@ mkdir -p $DST
 cp $SRC/patch.diff $DST/
 cp $SRC/notes.md $DST/ 2>/dev/null
 for f in $SRC/demo.* $SRC/build_and_run.sh $SRC/*.h; do [ -f $f ] && cp $f $DST/; done
-python3 - "$P" "$M" "$APPLY" "$TESTS" "$DEMO_CLEAN" "$DEMO_MUT" "$D" <<'PY'
+python3 - "$P" "$TAG$M" "$APPLY" "$TESTS" "$DEMO_CLEAN" "$DEMO_MUT" "$D" "$SRC" <<'PY'
 import json, sys, subprocess
-p, m, apply_, tests, dc, dm, d = sys.argv[1:8]
+p, m, apply_, tests, dc, dm, d, src = sys.argv[1:9]
 head = subprocess.check_output(['git', '-C', '/repo', 'log', '-1', '--format=%h']).decode().strip()
 prop = [json.loads(l) for l in open('/verif/properties.jsonl') if json.loads(l)['id'] == p][0]
 notes = ''
 try:
-    notes = open('/tmp/mut/%s/_mutants/%s/notes.md' % (p, m)).read()
+    notes = open(src + '/notes.md').read()
 except OSError:
     pass
 tail = lambda f: open(f, errors='replace').read()[-600:] if __import__('os').path.exists(f) else ''
